@@ -1,13 +1,13 @@
 \* pinned tree: all named deviations on; every failure must be attributable to a named deviation
 SPECIFICATION Spec
 CONSTANTS
-  Starts = {0, 65533, 1048573, 16777213}
-  UnitLens = {1, 5}
+  Starts = {0, 65533, 1048573}
+  UnitLens = {5}
   Grans = {1, 2}
   LineLens = {2, 5}
   Relocs = {0, 65536}
   Fmts = {"MOTO", "INTEL", "INTEL16", "INTEL32", "MOS", "TEK", "ATMEL", "C"}
   Devs = {"MosRunningSum", "MosTerm4", "TekByteSums", "Intel32UnitBank", "MotoTypeUnrelocated", "Intel16NoRebase", "RangeOnlyCode", "LineSplitsUnits", "MotoLineOverflow"}
   Full = FALSE
-INVARIANTS InvEmit InvLineLen InvPinnedExplained
+INVARIANTS InvDecodeEquiv InvEmit InvLineLen InvPinnedExplained
 CHECK_DEADLOCK FALSE
